@@ -10,8 +10,8 @@ case = {"reset": "earliest" | "latest" | None (key absent -> streamz defaults to
               | "buffer" starmap -> buffer(8) -> asynchronous sink whose futures the harness resolves (oldest first),
         "pre": [n_p ...] messages in each of the np0 partitions before the first start,
         "events": [["produce", p, n] | ["addpart"] | ["poll"] | ["done", i] | ["crash"]]}
-   "done i": hold: release batch number i of the current run (emission order, 0-based; no-op if unknown/already done);
-             buffer: i is ignored, the oldest outstanding sink future is resolved.
+   "done k": hold: release the (k mod m)-th oldest of the m batches the consumer currently holds (k = 0: in order;
+             no-op if it holds none); buffer: k is ignored, the oldest outstanding sink future is resolved.
    "crash": the process dies (event loop discarded, nothing of the old run ever executes again) and a new source with the
             same configuration and group id is built and started on the same broker.
 Observation = list of steps, step 0 is the first start:
@@ -201,8 +201,9 @@ class Run(object):
             self.cur["model_events"] = self.poll_events(len(self.batches))
         elif k == "done":
             if self.case["sink"] == "hold":
-                i = ev[1]
-                if i in self.held and i not in self.done:
+                outstanding = sorted(self.held)
+                if outstanding:
+                    i = outstanding[ev[1] % len(outstanding)]
                     md = self.held.pop(i)
                     self.done.add(i)
                     self.cur["done_now"].append(i)
